@@ -1566,4 +1566,98 @@ theorem emitSpec_len (c : PhyCmd) (hv : ValidCmd c) : ∀ e ∈ emitSpec c, e.te
     omega
   | raw ty => simp [emitSpec] at he
 
+/-! ### well-formed command texts -/
+
+/-- a decimal argument: digits, optionally with a minus sign -/
+def IsDecTok (a : List Nat) : Prop :=
+  (a ≠ [] ∧ ∀ c ∈ a, isDigit c = true) ∨ (∃ t, a = 45 :: t ∧ t ≠ [] ∧ ∀ c ∈ t, isDigit c = true)
+
+/-- `CMD <VERB>[ <arg>]*`: upper-case verb, single blanks, decimal arguments -/
+def WellFormedCmd (s : List Nat) : Prop :=
+  ∃ (verb : List Nat) (args : List (List Nat)), s = str "CMD " ++ verb ++ args.flatMap (fun a => 32 :: a) ∧ verb ≠ [] ∧
+    (∀ c ∈ verb, 65 ≤ c ∧ c ≤ 90) ∧ ∀ a ∈ args, IsDecTok a
+
+theorem fmtU_tok (n : Nat) : IsDecTok (fmtU n) :=
+  .inl ⟨decFuel_ne_nil 9 _, fmtU_chars n⟩
+
+theorem fmtD_tok (x : Int) : IsDecTok (fmtD x) := by
+  simp only [fmtD]
+  split
+  · exact .inr ⟨_, rfl, decFuel_ne_nil 9 _, decFuel_digits 10 _⟩
+  · exact .inl ⟨decFuel_ne_nil 9 _, decFuel_digits 10 _⟩
+
+theorem verb_ne (s : String) (h : (str s).length ≠ 0) : str s ≠ [] := by
+  intro e; rw [e] at h; exact h rfl
+
+theorem upper_of_all (s : String) (h : (str s).all (fun c => decide (65 ≤ c) && decide (c ≤ 90)) = true) :
+    ∀ c ∈ str s, 65 ≤ c ∧ c ≤ 90 := by
+  intro c hc
+  have := List.all_eq_true.mp h c hc
+  simpa using this
+
+/-- the verbs and argument tokens of `emitSpec` are upper-case / decimal -/
+theorem emitSpec_wf (c : PhyCmd) : ∀ e ∈ emitSpec c, e.verb ≠ [] ∧ (∀ c ∈ e.verb, 65 ≤ c ∧ c ≤ 90) ∧
+    ∀ a ∈ e.args, IsDecTok a := by
+  intro e he
+  cases c with
+  | reset =>
+    simp only [emitSpec, List.mem_cons, List.mem_nil_iff, or_false] at he
+    rcases he with rfl | rfl
+    · exact ⟨verb_ne "POWEROFF" (by decide), upper_of_all "POWEROFF" (by decide), by simp⟩
+    · exact ⟨verb_ne "ECHO" (by decide), upper_of_all "ECHO" (by decide), by simp⟩
+  | poweron =>
+    simp only [emitSpec, List.mem_singleton] at he; subst he
+    exact ⟨verb_ne "POWERON" (by decide), upper_of_all "POWERON" (by decide), by simp⟩
+  | poweroff =>
+    simp only [emitSpec, List.mem_singleton] at he; subst he
+    exact ⟨verb_ne "POWEROFF" (by decide), upper_of_all "POWEROFF" (by decide), by simp⟩
+  | measure a =>
+    simp only [emitSpec, List.mem_singleton] at he; subst he
+    exact ⟨verb_ne "MEASURE" (by decide), upper_of_all "MEASURE" (by decide), by simp [fmtU_tok]⟩
+  | setfreqH0 a =>
+    simp only [emitSpec, List.mem_cons, List.mem_nil_iff, or_false] at he
+    rcases he with rfl | rfl
+    · exact ⟨verb_ne "RXTUNE" (by decide), upper_of_all "RXTUNE" (by decide), by simp [fmtU_tok]⟩
+    · exact ⟨verb_ne "TXTUNE" (by decide), upper_of_all "TXTUNE" (by decide), by simp [fmtU_tok]⟩
+  | setfreqH1 hsn maio n ma =>
+    simp only [emitSpec, List.mem_singleton] at he; subst he
+    refine ⟨verb_ne "SETFH" (by decide), upper_of_all "SETFH" (by decide), ?_⟩
+    intro a ha
+    simp only [List.mem_cons, List.mem_flatMap] at ha
+    rcases ha with rfl | rfl | ⟨x, _, hx⟩
+    · exact fmtU_tok _
+    · exact fmtU_tok _
+    · simp only [pairToks, List.mem_cons, List.mem_nil_iff, or_false] at hx
+      rcases hx with rfl | rfl <;> exact fmtU_tok _
+  | setslot tn pchan =>
+    simp only [emitSpec] at he
+    split at he
+    · simp only [List.mem_singleton] at he; subst he
+      exact ⟨verb_ne "SETSLOT" (by decide), upper_of_all "SETSLOT" (by decide), by simp [fmtU_tok]⟩
+    · simp at he
+  | setta ta =>
+    simp only [emitSpec, List.mem_singleton] at he; subst he
+    exact ⟨verb_ne "SETTA" (by decide), upper_of_all "SETTA" (by decide), by simp [fmtD_tok]⟩
+  | raw ty => simp [emitSpec] at he
+
+
+
+/-! ### helpers for concrete examples -/
+
+def t0 : Trx := { state := stIdle, prevState := stOffline }
+def tWait (q : List CtrlMsg) : Trx := { queue := q, state := stRspWait, prevState := stIdle }
+/-- observations of a result: `none` = fault -/
+def sentLens (r : Except Fault (Int × Trx)) : Option (Int × List Nat) :=
+  match r with | .ok (rc, t) => some (rc, t.sent.map List.length) | .error _ => none
+def outcome (r : Except Fault (Int × Trx)) : Option (Int × Nat × Bool × Option (Nat × Int)) :=
+  match r with | .ok (rc, t) => some (rc, t.queue.length, t.elog, t.rsp) | .error _ => none
+def texts (r : Except Fault (Int × Trx)) : Option (Int × List (List Nat) × List (List Nat)) :=
+  match r with | .ok (rc, t) => some (rc, t.queue.map (·.cmd), t.sent) | .error _ => none
+def isCrash (r : Except Fault (Int × Trx)) : Bool :=
+  match r with | .error .crash => true | _ => false
+
+instance : DecidablePred ValidCmd := fun c => by
+  cases c <;> simp only [ValidCmd] <;> infer_instance
+
+
 end OsmoVerif.TrxconIf
